@@ -305,6 +305,12 @@ theorem decodeOvw_eq_partial (bs : Bytes) (hb : bs.length < 9223372036854775808)
           simp only []
           rw [chkI64_run (by omega) (by omega)]
           simp only []
+          -- the hand model checks the same two `int64_t` operations (`Chk.add64`, `Chk.mul64`)
+          have ha : Chk.add64 (Prim.s64 n1) 1 = .ok (Prim.s64 n1 + 1) :=
+            Chk.add64_ok (by unfold Chk.in64; omega)
+          have hm : Chk.mul64 3 (Prim.s64 n1 + 1) = .ok (3 * (Prim.s64 n1 + 1)) :=
+            Chk.mul64_ok (by unfold Chk.in64; omega)
+          simp only [ha, hm, lift_ok_run]
           by_cases h3 : (r.length : Int) < 3 * (Prim.s64 n1 + 1)
           · simp [h3, Res.bind]
           · simp only [h3, decide_false, if_false, Bool.false_eq_true]
